@@ -48,6 +48,11 @@ def _menus():
             "deltar": (f"ds.Select(lambda e: e.{coll}('A').Select(lambda j: DeltaR(j.eta(), j.phi(), j.eta(), j.phi())))", True),
             "docker": ("MetaData(ds, {'metadata_type': 'docker', 'image': 'other/image:1'})" + body, None),   # ok only with ext
         }
+        # declarations on the very types the backend pre-declares defaults for (the defaults must not be contaminated)
+        dt, dcoll = {"atlas": ("xAOD::TruthParticle", "TruthParticles"), "cms_aod": ("reco::Muon", "Muons"), "cms_miniaod": ("pat::Muon", "Muons")}[backend]
+        m["mt_on_default_type"] = (f"MetaData(ds, {{'metadata_type': 'add_method_type_info', 'type_string': '{dt}', 'method_name': 'pdgId', 'return_type': 'int'}})"
+                                   f".Select(lambda e: e.{dcoll}('T').Select(lambda t: t.pdgId()))", True)
+        m["undeclared_on_default_type"] = (f"ds.Select(lambda e: e.{dcoll}('T').Select(lambda t: t.pdgId()))", True)
         if backend == "atlas":
             m["defaults"] = ("ds.Select(lambda e: e.TruthParticles('T').Select(lambda t: t.prodVtx().x()))", True)
             m["getattr_fail"] = ("ds.Select(lambda e: e.Jets('A').Select(lambda j: j.getAttribute('x')))", False)
